@@ -267,6 +267,37 @@ header and fault enumeration (every position)",
         edge_cases().into_iter(),
         test_case,
     );
+    rep.run_enum(
+        "huge-dictionary",
+        "a model with 2,000,000 dictionary words (about 24 MB on disk): to_vec / write agree, \
+read and read_slice return the same model and exactly the trailing bytes (no prefix enumeration \
+at this size); guards against limits that only large production models reach",
+        false,
+        vec![GoldenCase { path: "generated:2000000".into() }].into_iter(),
+        |_c: &GoldenCase| {
+            use vaporetto::WordWeightRecord;
+            let mut m = ModelSpec::default().to_model()?;
+            let mut dict = Vec::with_capacity(2_000_000);
+            for i in 0..2_000_000u32 {
+                let w: String = [char::from_u32(0x4E00 + i / 4000).unwrap(), char::from_u32(0x4E00 + i % 4000).unwrap()].iter().collect();
+                dict.push(WordWeightRecord::new(w, vec![(i % 13) as i32 - 6, 1, -1], String::new()).map_err(|e| e.to_string())?);
+            }
+            m.replace_dictionary(dict);
+            let bytes = m.to_vec().map_err(|e| format!("to_vec: {e}"))?;
+            let mut w = vec![];
+            m.write(&mut w).map_err(|e| format!("write: {e}"))?;
+            ensure!(w == bytes, "write and to_vec differ for a large model");
+            let mut joined = bytes.clone();
+            joined.extend_from_slice(b"TRAILER");
+            let (m2, rest) = Model::read_slice(&joined).map_err(|e| format!("read_slice rejects a {}-byte model written by to_vec: {e}", bytes.len()))?;
+            ensure_eq!(rest, &b"TRAILER"[..], "rest after a large model");
+            ensure!(m2.to_vec().map_err(|e| e.to_string())? == bytes, "large model re-serialises differently (read_slice)");
+            let m3 = Model::read(bytes.as_slice()).map_err(|e| format!("read rejects a {}-byte model written by write: {e}", bytes.len()))?;
+            ensure!(m3.to_vec().map_err(|e| e.to_string())? == bytes, "large model re-serialises differently (read)");
+            ensure!(Model::read_slice(&bytes[..bytes.len() - 1]).is_err(), "a large model cut by one byte is accepted");
+            Ok(Info::new(true))
+        },
+    );
     let n = rep.n(1500, 15000);
     rep.run_prop(
         "files",
